@@ -559,6 +559,8 @@ func replay(class string, raw json.RawMessage) (string, bool) {
 		}
 	case "list":
 		out = judgeList()
+	case "listfresh":
+		_, out = listFresh()
 	case "type":
 		if in.Repo != "" {
 			if s, err := scanSource(in.Repo); err == nil && !contains(s.dptTypes, in.Type) {
@@ -613,23 +615,33 @@ func contains(l []string, s string) bool {
 	return false
 }
 
-// listFresh reports (counted, not judged: the statement speaks of produced values only) whether
-// overwriting the slice one call returned changes what the next call returns.
-func listFresh() string {
+// listFresh: a listing handed to a caller is the caller's; whatever the caller does with it (the
+// in-place filter idiom names[:0], compaction, overwriting) must not change what the registry
+// lists afterwards - "every name the registry lists can be produced ... is unique" is quantified
+// over histories of calls. History: list, overwrite every element of the result, list again.
+func listFresh() (string, []outcome) {
 	a := dpt.ListSupportedTypes()
 	keep := append([]string(nil), a...)
-	sort.Strings(keep)
+	sorted := append([]string(nil), keep...)
+	sort.Strings(sorted)
 	for i := range a {
 		a[i] = "scribble"
 	}
 	b := append([]string(nil), dpt.ListSupportedTypes()...)
 	sort.Strings(b)
-	if reflect.DeepEqual(keep, b) {
-		return "yes: overwriting a returned slice does not change the next call's result (reported, not judged)"
+	if reflect.DeepEqual(sorted, b) {
+		return "yes: overwriting a returned slice does not change the next call's result", nil
 	}
 	// undo, the rest of the check needs the names
 	copy(a, keep)
-	return "NO: the returned slice is shared with the registry - overwriting it changed the next call's result (reported, not judged: the statement speaks of produced values)"
+	bad := ""
+	for _, n := range b {
+		if _, ok := dpt.Produce(n); !ok {
+			bad = n
+			break
+		}
+	}
+	return "NO: the returned slice is shared with the registry", []outcome{{"C19:list-shared-with-callers", fmt.Sprintf("after a caller overwrote the elements of the slice one ListSupportedTypes() call returned, the next call lists %d names, among them %q, which Produce reports as unknown (before: %d producible names)", len(b), bad, len(keep))}}
 }
 
 // judgeList: the list is duplicate-free and the same set on every call.
@@ -698,7 +710,11 @@ func run(r *enumlib.Run) {
 			r.ViolationWithTest("C19:type-shared-by-names", fmt.Sprintf("names %q all produce %s; a type bears one number", ns, t), caseInput{Op: "name", Name: ns[1]}, nameGoTest(ns[1]))
 		}
 	}
-	r.Extra("list_slice_is_fresh_per_call", listFresh())
+	fresh, freshOut := listFresh()
+	r.Extra("list_slice_is_fresh_per_call", fresh)
+	c.report(freshOut, caseInput{Op: "listfresh"}, func() string {
+		return "func TestC19ListingIsTheCallers(t *testing.T) {\n\tl := dpt.ListSupportedTypes()\n\tfor i := range l {\n\t\tl[i] = \"scribble\"\n\t}\n\tfor _, n := range dpt.ListSupportedTypes() {\n\t\tif _, ok := dpt.Produce(n); !ok {\n\t\t\tt.Fatalf(\"the registry lists %q, which it cannot produce\", n)\n\t\t}\n\t}\n}"
+	})
 	r.Eval(int64(len(names)))
 	r.Nontrivial(nt)
 	r.Space("listed-names", int64(len(names)), nt, true, "every name of ListSupportedTypes(): form, uniqueness, producible, dynamic type bears the number, one name per type, list stable over 16 calls")
